@@ -395,6 +395,27 @@ func heldAdd(m interface{}, d int) {
 	}
 }
 
+// SettleLocks leaves every mutex that a task of the finished run acquired in the unlocked state, whatever state it
+// is in now (after a deadlock the unwinding tasks may or may not have released theirs). Call it after Run has
+// returned, when no task is running any more.
+//
+//go:norace
+func SettleLocks() {
+	for i := range heldL {
+		switch m := heldL[i].key.(type) {
+		case *sync.Mutex:
+			m.TryLock()
+			m.Unlock()
+		case Locker:
+			// an RWMutex may be held by readers: releasing a write lock that is not held is fatal, so only the
+			// free state is confirmed
+			if m.TryLock() {
+				m.Unlock()
+			}
+		}
+	}
+}
+
 // HeldLocks returns the lockers that tasks of the finished run acquired more often than they released them
 // (write locks as Locker; read locks count too). Call it after Run has returned.
 //
